@@ -229,6 +229,12 @@ def call_builtin(I, live, args, kwargs, node=None):
         if e is None:
             return STuple([NONE, NONE, NONE])
         return STuple([SFunc(e.cls), e.obj or NONE, SOpaque("traceback")])
+    if live is builtins.ord:
+        v = I.unopt(args[0])
+        if isinstance(v, SStr):
+            I.check_or_raise(z3.Length(v.t) == 1, TypeError, "ord() expected a character", node)
+            return SInt(z3.StrToCode(v.t))
+        raise Unsupported("ord() of a non-string")
     if live is len:
         return length(I, args[0], node)
     if live is isinstance:
@@ -716,6 +722,23 @@ def str_method(I, v, name, args, kwargs, node):
         if "maxsplit" in kwargs and len(args) == 1:
             args = list(args) + [kwargs["maxsplit"]]
             kwargs = {k_: v_ for k_, v_ in kwargs.items() if k_ != "maxsplit"}
+        if name == "rsplit" and len(args) == 2 and concrete_int(as_int(args[1])) in (2, 3):
+            # k right-most splits: k applications of the last-occurrence split
+            sep = args[0].t
+            fn = z3.Function("py_rfind", StrS, StrS, IntS)
+            cur, parts = t, []
+            for _ in range(concrete_int(as_int(args[1]))):
+                r = fn(cur, sep)
+                c.assume(z3.If(z3.Contains(cur, sep),
+                               z3.And(r >= 0, r + z3.Length(sep) <= z3.Length(cur), z3.SubString(cur, r, z3.Length(sep)) == sep,
+                                      z3.Not(z3.Contains(z3.SubString(cur, r + 1, z3.Length(cur) - r - 1), sep))),
+                               r == -1))
+                if not c.branch(r >= 0):
+                    break
+                parts.insert(0, SStr(z3.SubString(cur, r + z3.Length(sep), z3.Length(cur))))
+                cur = z3.SubString(cur, 0, r)
+            parts.insert(0, SStr(cur))
+            return SList(parts)
         if name == "rsplit" and len(args) == 2 and concrete_int(as_int(args[1])) == 1:
             sep = args[0].t
             fn = z3.Function("py_rfind", StrS, StrS, IntS)
